@@ -4,7 +4,6 @@ import (
 	"fmt"
 	"go/constant"
 	"go/token"
-	"go/types"
 	"strings"
 
 	"golang.org/x/tools/go/ssa"
@@ -495,7 +494,7 @@ func runC15(c *kit.Ctx) {
 	}
 	// the chunk the client feeds the codec fits Hadoop's 256 KiB codec buffers once compressed:
 	// snappy's worst case is 32 + n + n/6 bytes for n bytes of input
-	if k, ok := p.Pkg("compression/snappy").Scope().Lookup("snappyChunkLen").(*types.Const); ok {
+	if k := p.Const("compression/snappy", "snappyChunkLen"); k != nil {
 		v, _ := constant.Int64Val(k.Val())
 		c.Check(v > 0 && 32+v+v/6 <= 256*1024, sEnc, "chunk-fits-hadoop-buffer", k.Pos(), fmt.Sprintf("chunk length %d: worst-case compressed size %d <= 262144", v, 32+v+v/6),
 			fmt.Sprintf("the chunk length %d compresses, in the worst case (incompressible data), to %d bytes, more than the 262144-byte buffers of Hadoop's snappy decompressor: a server rejects such a chunk", v, 32+v+v/6))
